@@ -140,6 +140,43 @@ pub fn endpoints() -> Vec<Endpoint> {
       false,
       false,
     ),
+    // The builtin secure endpoints whose submessage protection comes from the
+    // DOMAIN rule of the governance document: liveliness_protection_kind for
+    // DCPSParticipantMessageSecure, discovery_protection_kind for the three
+    // secure discovery topics (DDS Security 7.4.8). Their keys are exchanged
+    // like those of user endpoints.
+    builtin(
+      "pmsec",
+      "DCPSParticipantMessageSecure",
+      EntityId::P2P_BUILTIN_PARTICIPANT_MESSAGE_SECURE_READER,
+      EntityId::P2P_BUILTIN_PARTICIPANT_MESSAGE_SECURE_WRITER,
+      false,
+      true,
+    ),
+    builtin(
+      "pubsec",
+      "DCPSPublicationsSecure",
+      EntityId::SEDP_BUILTIN_PUBLICATIONS_SECURE_READER,
+      EntityId::SEDP_BUILTIN_PUBLICATIONS_SECURE_WRITER,
+      false,
+      true,
+    ),
+    builtin(
+      "subsec",
+      "DCPSSubscriptionsSecure",
+      EntityId::SEDP_BUILTIN_SUBSCRIPTIONS_SECURE_READER,
+      EntityId::SEDP_BUILTIN_SUBSCRIPTIONS_SECURE_WRITER,
+      false,
+      true,
+    ),
+    builtin(
+      "psec",
+      "DCPSParticipantSecure",
+      EntityId::SPDP_RELIABLE_BUILTIN_PARTICIPANT_SECURE_READER,
+      EntityId::SPDP_RELIABLE_BUILTIN_PARTICIPANT_SECURE_WRITER,
+      false,
+      true,
+    ),
   ]
 }
 
